@@ -1370,7 +1370,8 @@ class Tr:
             return [("yield", self.expr(s.value.value))]
         if isinstance(s, ast.Raise):
             exc = s.exc.func if isinstance(s.exc, ast.Call) else s.exc
-            if not isinstance(exc, ast.Name) or s.cause is not None:
+            from_none = self.orch and isinstance(s.cause, ast.Constant) and s.cause.value is None      # `raise E(...) from None`
+            if not isinstance(exc, ast.Name) or (s.cause is not None and not from_none):
                 raise TranslationError(f"unsupported raise: {_dump(s)}")
             return [("raise", exc.id)]
         if self.orch and isinstance(s, ast.Expr) and isinstance(s.value, ast.Call):
